@@ -50,10 +50,10 @@ Proof. intros; split; cbn; intros t []. Qed.
 
 Lemma inv1_step : forall s e s', Inv1 s -> step s e = Some s' -> Inv1 s'.
 Proof.
-  intros s e s' [Hm Hd Hf] H. destruct e as [t alt|].
+  intros s e s' [Hm Hd Hf] H. destruct e as [t alt| |t].
   2:{ step_cases H. split; proj; auto. }
-  pose proof (Hm t) as Hmt; pose proof (Hd t) as Hdt; pose proof (Hf t) as Hft.
-  step_cases H; (split; proj; intros t0; [specialize (Hm t0)|specialize (Hd t0)|specialize (Hf t0)]; split_thr t0 t;
+  all: pose proof (Hm t) as Hmt; pose proof (Hd t) as Hdt; pose proof (Hf t) as Hft.
+  all: step_cases H; (split; proj; intros t0; [specialize (Hm t0)|specialize (Hd t0)|specialize (Hf t0)]; split_thr t0 t;
     simpl in *; rewrite ?andb_true_r, ?andb_false_r, ?orb_false_r, ?orb_true_r in *; try tauto; try (intuition congruence)).
 Qed.
 
@@ -154,12 +154,12 @@ Qed.
 
 Lemma inv2_step : forall s e s', Inv1 s -> Inv2 s -> step s e = Some s' -> Inv2 s'.
 Proof.
-  intros s e s' I1 I2 H. pose proof I1 as [Hm _ _]. pose proof I2 as [Hfa H1 H2]. destruct e as [t alt|].
+  intros s e s' I1 I2 H. pose proof I1 as [Hm _ _]. pose proof I2 as [Hfa H1 H2]. destruct e as [t alt| |t].
   2:{ step_cases H. split; proj; auto; discriminate. }
-  pose proof (Hm t) as Hmt. pose proof (H1 t) as H1t.
-  step_cases H;
+  all: pose proof (Hm t) as Hmt; pose proof (H1 t) as H1t.
+  all: step_cases H;
   match goal with
-  | |- context[wire s ++ _] => idtac
+  | |- context[wire _ ++ _] => idtac
   | _ => split; proj;
      [ exact Hfa
      | intros t0; specialize (H1 t0); split_thr t0 t; simpl; auto
@@ -239,12 +239,12 @@ Qed.
 
 Lemma inv3_step : forall s e s', Inv1 s -> Inv3 s -> step s e = Some s' -> Inv3 s'.
 Proof.
-  intros s e s' I1 I3 H. pose proof I3 as [Hac H1 H3]. destruct e as [t alt|].
+  intros s e s' I1 I3 H. pose proof I3 as [Hac H1 H3]. destruct e as [t alt| |t].
   2:{ step_cases H. split; proj; auto. }
-  pose proof (H3 t) as H3t.
-  step_cases H;
+  all: pose proof (H3 t) as H3t.
+  all: step_cases H;
   match goal with
-  | |- context[wire s ++ _] => idtac
+  | |- context[wire _ ++ _] => idtac
   | _ => split; proj;
      [ exact Hac
      | intros c0 Hc0; first [reflexivity | eapply H1; eauto]
@@ -269,12 +269,14 @@ Definition mrel (p : phase) (n t : nat) (o : option wev) : Prop :=
   end.
 Record Inv4 (s : st) : Prop := {
   i_mu : msgs_unmixed None (wire s) = true;
-  i_mu1 : closed s = false -> close_sent s = false -> forall t, msg_mu s = Some t ->
+  (* the holder of msgWriter.mu may be a thread that gave up a streamed message (EGiveUp): it is then outside the data phases, no
+     thread is inside them (Inv1), and no data frame can be written any more; mrel is only claimed for a holder inside them *)
+  i_mu1 : closed s = false -> close_sent s = false -> forall t, msg_mu s = Some t -> dataph (ph (thrs s t)) ->
           mrel (ph (thrs s t)) (ncall (thrs s t)) t (mu_state None (wire s));
   i_mu2 : closed s = false -> close_sent s = false -> msg_mu s = None -> mu_state None (wire s) = None }.
 
 Lemma inv4_init : forall c progs, Inv4 (init c progs).
-Proof. intros; split; cbn; auto. discriminate. Qed.
+Proof. intros; split; cbn; auto; discriminate. Qed.
 
 Lemma owned_check : forall t n o e, owned t n o -> e_tid e = t -> e_call e = n -> mu_check o e = true.
 Proof.
@@ -293,14 +295,14 @@ Proof.
   intros s t fk k parts fi p l ph' [Hm Hd Hf] [Hac A1 A3] [Hmu H1 H2] Hc Hph Hph'.
   pose proof (A3 t) as A3t. rewrite Hph in A3t. pose proof (Hd t) as Hdt. rewrite Hph in Hdt.
   destruct fk.
-  - simpl in A3t, Hdt. specialize (Hdt I). pose proof (H1 Hc A3t t Hdt) as H1t. rewrite Hph in H1t.
+  - simpl in A3t, Hdt. specialize (Hdt I). pose proof (H1 Hc A3t t Hdt) as H1t. rewrite Hph in H1t. specialize (H1t I).
     split; proj.
     + rewrite mu_snoc, Hmu. simpl. destruct p as [|q]; simpl in H1t.
       * destruct (fi =? 0) eqn:Hfi.
         -- rewrite H1t. unfold mu_check. simpl. reflexivity.
         -- eapply owned_check; eauto.
       * eapply owned_check; eauto.
-    + intros _ _ t0 Hmu0. assert (t0 = t) as -> by congruence. rewrite upd_same. cbn [ph ncall set_ph].
+    + intros _ _ t0 Hmu0 _. assert (t0 = t) as -> by congruence. rewrite upd_same. cbn [ph ncall set_ph].
       rewrite mu_state_snoc. unfold mu_next. cbn [is_data e_kind e_fin e_last].
       destruct Hph' as [[-> ->] | [-> ->]].
       * rewrite andb_false_r. simpl. eexists; split; [reflexivity|]. simpl; auto.
@@ -312,7 +314,7 @@ Proof.
     + rewrite mu_snoc, Hmu. simpl. apply K. reflexivity.
     + intros _ Hcs t0 Hmu0. rewrite mu_state_snoc. match goal with |- context[mu_next ?o ?e] => rewrite (proj2 (K o e eq_refl)) end.
       specialize (H1 Hc Hcs t0 Hmu0). split_thr t0 t.
-      * rewrite Hph in H1. simpl in H1. contradiction.
+      * destruct Hph' as [[-> _] | [-> _]]; intros [].
       * exact H1.
     + intros _ Hcs Hmu0. rewrite mu_state_snoc. match goal with |- context[mu_next ?o ?e] => rewrite (proj2 (K o e eq_refl)) end. auto.
   - assert (forall o e, e_kind e = FClose -> mu_check o e = true /\ mu_next o e = o) as K.
@@ -321,19 +323,19 @@ Proof.
     + rewrite mu_snoc, Hmu. simpl. apply K. reflexivity.
     + intros _ Hcs t0 Hmu0. rewrite mu_state_snoc. match goal with |- context[mu_next ?o ?e] => rewrite (proj2 (K o e eq_refl)) end.
       specialize (H1 Hc Hcs t0 Hmu0). split_thr t0 t.
-      * rewrite Hph in H1. simpl in H1. contradiction.
+      * destruct Hph' as [[-> _] | [-> _]]; intros [].
       * exact H1.
     + intros _ Hcs Hmu0. rewrite mu_state_snoc. match goal with |- context[mu_next ?o ?e] => rewrite (proj2 (K o e eq_refl)) end. auto.
 Qed.
 
 Lemma inv4_step : forall s e s', Inv1 s -> Inv3 s -> Inv4 s -> step s e = Some s' -> Inv4 s'.
 Proof.
-  intros s e s' I1 I3 I4 H. pose proof I1 as [Hm Hd Hf]. pose proof I4 as [Hmu H1 H2]. destruct e as [t alt|].
+  intros s e s' I1 I3 I4 H. pose proof I1 as [Hm Hd Hf]. pose proof I4 as [Hmu H1 H2]. destruct e as [t alt| |t].
   2:{ step_cases H. split; proj; auto; discriminate. }
-  pose proof (Hd t) as Hdt. pose proof (Hf t) as Hft.
-  step_cases H;
+  all: pose proof (Hd t) as Hdt; pose proof (Hf t) as Hft.
+  all: step_cases H;
   match goal with
-  | |- context[wire s ++ _] => idtac
+  | |- context[wire _ ++ _] => idtac
   | _ => split; proj;
      [ exact Hmu
      | intros Hc Hcs t0 Hmu0; try congruence;
@@ -349,6 +351,8 @@ Proof.
   end.
   - eapply inv4_emit; eauto.
   - eapply inv4_emit; eauto.
+  - (* EGiveUp, Conn.Write's single frame: msgWriter.mu is released by its holder before anything of the message was written *)
+    apply andb_prop in Heqb as [_ E]. rewrite E in H1t. tauto.
 Qed.
 
 (* ---------------- invariant 5: program order ---------------- *)
@@ -385,11 +389,11 @@ Qed.
 
 Lemma inv5_step : forall s e s', Inv5 s -> step s e = Some s' -> Inv5 s'.
 Proof.
-  intros s e s' [Hto H1] H. destruct e as [t alt|].
+  intros s e s' [Hto H1] H. destruct e as [t alt| |t].
   2:{ step_cases H. split; proj; auto. }
-  step_cases H;
+  all: step_cases H;
   match goal with
-  | |- context[wire s ++ _] => idtac
+  | |- context[wire _ ++ _] => idtac
   | _ => split; proj;
      [ exact Hto
      | intros a Hin; specialize (H1 a Hin); destruct (Nat.eq_dec (e_tid a) t) as [E|N];
